@@ -123,11 +123,29 @@ def one_case(ctx, rng, der, wd, force3d=False, unequal=False):
     par = {"eps": eps_, "sig": sig, "n": float(rng.choice([6, 8, 9.5, 10, 12])), "A": float(rng.uniform(0.5, 2.0)),
            "alpha": float(rng.choice([2.0, 2.5, 3.0]))}
     shift = bool(rng.random() < 0.6)
+    unit = 1.0
+    if rng.random() < 0.2 and not int_params:
+        # another system of units: energies from 1e-12 to 1e6 of the usual (frequencies^2 down to 1e-12: "zero" is relative)
+        unit = float(10.0 ** rng.uniform(-12, 6))
+        eps_ = eps_ * unit
+        par["eps"] = eps_
+        ctx.count("other_energy_unit")
     mass_map = {k: 1.0 for k in range(1, Kr + 1)}
     if unequal or rng.random() < 0.5:
         mass_map = {k: float(rng.choice([0.5, 1.0, 2.0, 3.0, 7.5])) for k in range(1, Kr + 1)}
         if Kr >= 2 and len(set(mass_map.values())) == 1:
             mass_map[2] = mass_map[1] * 3.0
+    if rng.random() < 0.4:
+        # the dict filled in another order, possibly listing a species that does not occur: masses are looked up by KEY
+        ks_ = list(mass_map)
+        ks_ = [ks_[j] for j in rng.permutation(len(ks_))]
+        mm_ = {}
+        if rng.random() < 0.5:
+            mm_[Kr + 1] = float(rng.choice([0.25, 5.0, 11.0]))
+        for k_ in ks_:
+            mm_[k_] = mass_map[k_]
+        mass_map = mm_
+        ctx.count("mass_dict_in_other_order")
     masses = np.array([mass_map[t] for t in types])
     terms, margin = pair_terms(snap.positions, types, Hc, ppp, rc, model, par, shift, der)
     if margin < 1e-6 or len(terms) == 0:
@@ -146,9 +164,15 @@ def one_case(ctx, rng, der, wd, force3d=False, unequal=False):
         for a_ in (e_arg, s_arg, r_arg):
             a_.setflags(write=False)            # read-only tables (slices of a read-only configuration object)
     hm = HessianMatrix(snapshot=snap, masses=dict(mass_map), epsilons=e_arg, sigmas=s_arg, r_cuts=r_arg, ppp=ppp, shiftpotential=shift)
-    if rng.random() < 0.3:
-        # history: the SAME object is asked for the same matrix once before (a scan over output options / models re-uses the object)
-        ctx.call(key + "/prior_call", hm.diagonalize_hessian, ip, True, True, out + "_prior", data=info)
+    if rng.random() < 0.45:
+        # history: the SAME object is asked once before -- for the same matrix, or for ANOTHER exponent / prefactor / stiffness of the
+        # same model (a scan over n, A or alpha for one snapshot)
+        ip_prior = ip
+        if rng.random() < 0.6:
+            ip_prior = InteractionParams(model_name=getattr(ModelName, model), ipl_n=par["n"] + 2.0, ipl_A=par["A"] * 1.7,
+                                         harmonic_hertz_alpha={2.0: 2.5, 2.5: 3.0, 3.0: 2.0}.get(par["alpha"], 2.0))
+            ctx.count("prior_call_other_interaction_parameters")
+        ctx.call(key + "/prior_call", hm.diagonalize_hessian, ip_prior, True, True, out + "_prior", data=info)
         ctx.count("second_call_on_same_object")
         for ext in (".hessianmatrix.npy", ".evecs.npy", ".omega_PR.csv"):
             try:
@@ -175,8 +199,8 @@ def one_case(ctx, rng, der, wd, force3d=False, unequal=False):
         ctx.violation(key + "/files", f"expected output files missing/unreadable: {e!r}", info())
         return
     Href = hessian_ref(N, d, terms, masses)
-    scale = max(1.0, float(np.abs(Href).max()))
-    if not ctx.close("hessian_vs_analytic", Hs, Href, key + "/matrix", rtol=1e-9, atol=1e-12, scale=scale,
+    scale = max(1e-300, float(np.abs(Href).max()))          # relative to the matrix itself: no absolute floor (units are arbitrary)
+    if not ctx.close("hessian_vs_analytic", Hs, Href, key + "/matrix", rtol=1e-9, atol=1e-12 * scale, scale=scale,
                      what="saved Hessian vs M^-1/2 d2U M^-1/2", data=lambda: {**info(), "block_hint": _block_hint(Hs, Href, d)}):
         pass
     ctx.check("symmetry", np.abs(Hs - Hs.T).max() <= 1e-10 * scale, key + "/symmetry", lambda: f"asymmetry {np.abs(Hs - Hs.T).max():.3g}", info)
